@@ -1,6 +1,6 @@
 import Feox.Proto.Disk
 import Feox.Props.C06
-import Feox.Props.C05Space
+import Feox.Props.C05Acc
 /-!
 # C05 — each data block has exactly one owner or is free; freed space is reusable
 
